@@ -274,7 +274,7 @@ def stepC (st : St) (t : Nat) (rest : List String) : Except String (St × List S
       else if opk == "drop" && st.busy.any (fun p => p.2 == x) then harnessLevel st t "invalid:busy"
       else
       match parseOp st t rest a with
-      | none => harnessLevel st t "unsupported"
+      | none => harnessLevel st t (if st.busy.any (fun p => p.2 == x) then "invalid:busy" else "unsupported")
       | some mop => callModel st t a opk mop
   | [opk, x, y] =>
     match lookup st.hmap x with
